@@ -308,7 +308,7 @@ def run(run):
     cf = prog.method("from", r"cell_buffer::CellBuffer$", r"From<.*StringBuffer>")
     if cf:
         # a per-row helper the conversion was split into (`insert_row(y, chars)`) is spliced back
-        prog.inline_single_use_helpers(cf, same_file=True, skip=r"::(escape_line|add_css_styles|insert)$")
+        prog.inline_single_use_helpers(cf, same_file=True, skip=r"::(escape_line|add_css_styles|insert)$", skip_ret=r"^bool$")
     if not cf:
         run.missing("C04.F2", "From<StringBuffer> for CellBuffer")
     else:
